@@ -456,6 +456,12 @@ def tree_builder(ctx: Ctx, required: bool = True) -> Func | None:
         rec = any(isinstance(n, ast.Call) and ((isinstance(n.func, ast.Name) and n.func.id == f.name) or (isinstance(n.func, ast.Attribute) and n.func.attr == f.name and isinstance(n.func.value, ast.Name) and n.func.value.id in ("self", "cls"))) for n in own)
         if rec and n_cmp > score:
             best, score = f, n_cmp
+        # ... or dispatches through a table keyed by `<tree>.data` whose handlers call it back
+        keyed = [n for n in own if isinstance(n, (ast.Call, ast.Subscript)) and any(isinstance(a_, ast.Attribute) and a_.attr == "data" for a_ in (list(n.args) if isinstance(n, ast.Call) else [n.slice]))]
+        if keyed and score < 3:
+            called_back = sum(1 for g in ctx.sm.funcs_in("expressions.py") if g is not f and any(isinstance(c, ast.Call) and isinstance(c.func, ast.Name) and c.func.id == f.name for c in ast.walk(g.node)))
+            if called_back >= 3 and called_back > score:
+                best, score = f, called_back
     if best is None or score < 3:
         if required:
             raise AnalysisError("expressions.py: no function that dispatches on tree.data and calls itself on the children was found (anchor vanished)")
